@@ -152,18 +152,19 @@ def warmup_sessions(ck, n_scen):
     for i in range(n_scen):
         w = rng.choice([None, 0, 1, 2, 3, 5])
         n_inv = rng.randint(1, 4)
-        its = rng.randint(1, 7)
+        its = rng.randint(1, 7) if rng.random() < 0.75 else rng.randint(18, 60)   # ... also long invocations
+        extra = rng.choice([0, 0, 0, 1, 2, 3])      # further criteria reported per iteration, before the total
         if rng.random() < 0.3:
             # many significant digits: a large common offset plus binary fractions (exact in the file's six decimals)
             off = rng.choice([987654321, 123456789, 40000000])
             vals = [[off + rng.randint(0, 640) / 64.0 for _ in range(its)] for _ in range(n_inv)]
         else:
             vals = [[round(rng.uniform(1, 500), rng.choice([0, 1, 3, 6])) for _ in range(its)] for _ in range(n_inv)]
-        scen.append((w, n_inv, its, vals))
+        scen.append((w, n_inv, its, vals, extra))
         ops.append({'op': 'c15.warmup', 'w': w or 0,
                     'invs': [[{'it': k + 1, 'total': lib.frac(v)} for k, v in enumerate(inv)] for inv in vals]})
     answers = ck.model(ops)
-    for idx, ((w, n_inv, its, vals), ans) in enumerate(zip(scen, answers)):
+    for idx, ((w, n_inv, its, vals, extra), ans) in enumerate(zip(scen, answers)):
         wd = os.path.join(ck.scratch, 'w%d' % idx)
         os.makedirs(wd)
         suite = {'gauge_adapter': 'RebenchLog', 'command': 'h %(benchmark)s', 'benchmarks': ['B']}
@@ -175,10 +176,11 @@ def warmup_sessions(ck, n_scen):
         conf = drive.write_config(wd, cfg)
         state = {'k': 0}
 
-        def script(rec, vals=vals, state=state):
+        def script(rec, vals=vals, state=state, extra=extra):
             k = state['k']
             state['k'] += 1
-            out = ''.join('B: iterations=1 runtime: %sms\n' % repr(v) for v in vals[k])
+            crit = ['B: heap size: 4096kb\n', 'B gc: iterations=1 runtime: 250us\n', 'B: allocated: 12.5MB\n'][:extra]
+            out = ''.join(''.join(crit) + 'B: iterations=1 runtime: %sms\n' % repr(v) for v in vals[k])
             return drive.Outcome(0, out)
         live_stats = {}
         reload_stats = {}
@@ -201,8 +203,10 @@ def warmup_sessions(ck, n_scen):
         finally:
             rbm.ReBench.execute_experiment = orig
         ck.impl_traces += 2
-        inp = {'warmup': w, 'invocations': n_inv, 'iterations': its, 'values': vals}
+        inp = {'warmup': w, 'invocations': n_inv, 'iterations': its, 'values': vals, 'extra_criteria': extra}
         ck.count('warmup:%s' % w)
+        ck.count('iterations:%s' % ('<=7' if its <= 7 else '18-60'))
+        ck.count('extra-criteria:%d' % extra)
         ck.case(nontrivial_key=('w', w, n_inv, its, hash(str(vals))) if (w or 0) > 0 else None,
                 sample={'warmup': w, 'values': vals} if idx < 2 else None)
         if r1.crash or r2.crash or 's' not in live_stats or 's' not in reload_stats:
@@ -275,7 +279,8 @@ def run(ck):
     ck.rule = ('sample lists (single, pairs, repeats, large offsets, magnitudes 1e-3..1e9, ints, long) fed in random '
                'batches to the real StatisticProperties and as exact rationals to RB.Stats; agreement within a '
                'worst-case rounding bound; non-trivial = list of length >= 2 (distinct by content) or a warm-up '
-               'scenario with warmup > 0; plus real two-session (live, reload) runs')
+               'scenario with warmup > 0; plus real two-session (live, reload) runs of 1-4 invocations x 1-60 '
+               'iterations, each iteration reporting 0-3 further criteria besides the total')
     ck.assumptions = ['IEEE-754 rounding is not modelled: agreement of the float implementation with the exact '
                       'rational model is required within 4*(n+2)*eps*max|x| (mean) and the corresponding bound for m2']
     n_lists = 400 if quick else 5000
